@@ -361,6 +361,22 @@ func newNode(t *testing.T) *httptest.Server {
 type fakeConn struct {
 	cols []string
 	rows [][]any
+	// contents of the referenced table for filter references (hex of the value)
+	refTable map[string]bool
+}
+
+type refRow struct{ found bool }
+
+func (r refRow) Scan(dest ...any) error {
+	if !r.found {
+		return pgx.ErrNoRows
+	}
+	if len(dest) == 1 {
+		if b, ok := dest[0].(*bool); ok {
+			*b = true
+		}
+	}
+	return nil
 }
 
 func (c *fakeConn) CopyFrom(_ context.Context, _ pgx.Identifier, cols []string, src pgx.CopyFromSource) (int64, error) {
@@ -379,7 +395,14 @@ func (c *fakeConn) CopyFrom(_ context.Context, _ pgx.Identifier, cols []string, 
 func (c *fakeConn) Exec(context.Context, string, ...any) (pgconn.CommandTag, error) {
 	return pgconn.CommandTag{}, nil
 }
-func (c *fakeConn) QueryRow(context.Context, string, ...any) pgx.Row { return nil }
+func (c *fakeConn) QueryRow(_ context.Context, _ string, args ...any) pgx.Row {
+	if len(args) == 1 {
+		if b, ok := args[0].([]byte); ok {
+			return refRow{c.refTable[eth.EncodeHex(b)]}
+		}
+	}
+	return refRow{}
+}
 func (c *fakeConn) Query(context.Context, string, ...any) (pgx.Rows, error) {
 	return nil, fmt.Errorf("no Query")
 }
